@@ -636,6 +636,7 @@ func c6dNew(rep *vh.Report, r *vh.Rng, v2 bool) *c6dRun {
 		rep.Violate("harness-setup", "cannot construct keystore: "+err.Error(), "")
 		return nil
 	}
+	h.desc += c6DescDir(h.drv, rep)
 	return h
 }
 
